@@ -123,6 +123,31 @@ func c20Units(ctx *core.Ctx) []core.Unit {
 			}
 		}})
 	}
+	us = append(us, core.Unit{Name: "partition: large n (chunks of 100..5000 iterations) x small m", Run: func(ctx *core.Ctx, r *core.Result) {
+		var ns []int
+		for n := 1000; n <= 1100; n++ {
+			ns = append(ns, n)
+		}
+		ns = append(ns, 2047, 2048, 2049, 4095, 4097, 8191, 10007, 16383, 20000)
+		for _, n := range ns {
+			for _, m := range []int{1, 2, 3, 4, 5, 7, 8, 9, 16, 17} {
+				var rs [][2]int
+				var st, fin int64
+				in := fmt.Sprintf("Execute(n=%d, work, m=%d)", n, m)
+				if !timed(r, "c20.panic", "parallel.Execute", in, func() { rs, st, fin = freeRun(n, m, false) }) {
+					continue
+				}
+				r.Evals++
+				r.Nontrivial++
+				if msg := judgeRanges(n, m, rs); msg != "" {
+					r.Violate(core.Violation{Check: "c20.partition", API: "parallel.Execute", Input: in, Expected: "disjoint contiguous non-empty ranges covering [0,n), at most min(n,m)", Got: msg + fmt.Sprintf(" ranges=%v", rs)})
+				}
+				if st != fin || int(st) != len(rs) {
+					r.Violate(core.Violation{Check: "c20.join", API: "parallel.Execute", Input: in, Expected: "every started invocation finished at return", Got: fmt.Sprintf("started=%d finished=%d", st, fin)})
+				}
+			}
+		}
+	}})
 	us = append(us, core.Unit{Name: "partition: large worker limits, and decreasing m for the same n (call order)", Run: func(ctx *core.Ctx, r *core.Result) {
 		ms := []int{300, 257, 256, 255, 129, 128, 100, 65, 33, 8, 3, 2, 1}
 		ns := []int{0, 1, 2, 17, 255, 256, 257, 300, 513, 1000, 1001, 2048}
